@@ -1,4 +1,7 @@
 pub mod common;
+pub mod images;
+pub mod c01;
+pub mod c02;
 pub mod c03;
 pub mod c04;
 pub mod c04_positer;
@@ -6,5 +9,5 @@ pub mod c04_positer;
 use crate::run::Property;
 
 pub fn all() -> Vec<&'static dyn Property> {
-    vec![&c03::C03, &c04::C04]
+    vec![&c01::C01, &c02::C02, &c03::C03, &c04::C04]
 }
